@@ -33,6 +33,8 @@
 //   copy <l> <src>           operator=(const MutableNodeRefList&)
 //   copyb <l> <src>          operator=(const NodeRefListBase&)
 //   variant <edge> <docnode> (for the model only; replies ok)
+//   axis <n> <axis-name>     XPathEvaluator::selectNodeList(context n, "<axis-name>::node()")
+//   axisp <n> <axis-name> <k> … "<axis-name>::node()[k]"
 //   xp <n> <expr>            XPathEvaluator::selectNodeList(context n, expr)  (expr has no blanks)
 //   xpu <n> <expr> ; ...     same; everything after " ;" is for the model only
 // Nodes are written d<doc>.<pre> (pre = position in the structural pre-order walk, 0 = the document node).
@@ -418,7 +420,20 @@ static std::string handle(const std::string& line)
                 r += s.context->isNodeAfter(*ns[a], *ns[b]) ? '1' : '0';
         return r.empty() ? "-" : r;
     }
-    if (op == "xp" || op == "xpu")
+    if (op == "axis" && t.size() == 3)
+    {
+        // one location step from the context node with the node test node() and no predicate
+        t[0] = "xp";
+        t[2] = t[2] + "::node()";
+    }
+    if (op == "axisp" && t.size() == 4)
+    {
+        // the same with a positional predicate
+        t[0] = "xp";
+        t[2] = t[2] + "::node()[" + t[3] + "]";
+        t.pop_back();
+    }
+    if (t[0] == "xp" || t[0] == "xpu")
     {
         if (t.size() != 3) return "bad xp";
         XalanNode* const ctx = parseNode(s, t[1]);
